@@ -1,4 +1,5 @@
 from vlib.core import Check, Family
+from vlib.gentie import gentie_step
 
 # Comparison tolerance for ALL four outputs (vaporPressure, dewPoint, wetBulb, deltaT): rtol 1e-9, atol 1e-12 × the largest
 # magnitude on the line. Go's math.Pow/Log10/Log and the C libm behind Lean's Float agree to a few ulp (observed: ≤ 4e-13
@@ -14,6 +15,7 @@ CHECK = Check(
     "C20",
     props_modules=["OW.Props.C20"],
     families=[Family("K", rtol=1e-9, atol_scale=1e-12, args=["models=ClimateVariables", "prop=C20", "n=400"], label="K-climate")],
+    pre_steps=[gentie_step],   # tie A: climate_variables.go regenerated as Lean and proved equal to the hand-written model (gen_eq_ClimateVariables)
     level="proof",
     trusted=[
         "hand-written Lean model OW/Kernels/Climate.lean of models/climate/climate_variables.go (Goff-Gratch, Magnus dew point, "
